@@ -226,14 +226,28 @@ func (d *Decoder) DecodeWithOption(v interface{}, optFuncs ...DecodeOptionFunc) 
 	if err != nil {
 		return err
 	}
-	if err := d.s.PrepareForDecode(); err != nil {
+	s := d.s
+	// an error of the underlying reader (other than io.EOF) is sticky and always
+	// reported: a value whose end was decided by a failed read is not a value.
+	if err := s.ReadErr(); err != nil {
 		return err
 	}
-	s := d.s
+	if err := s.PrepareForDecode(); err != nil {
+		if rerr := s.ReadErr(); rerr != nil {
+			return rerr
+		}
+		return err
+	}
 	for _, optFunc := range optFuncs {
 		optFunc(s.Option)
 	}
 	if err := dec.DecodeStream(s, 0, header.ptr); err != nil {
+		if rerr := s.ReadErr(); rerr != nil {
+			return rerr
+		}
+		return err
+	}
+	if err := s.ReadErr(); err != nil {
 		return err
 	}
 	s.Reset()
@@ -245,7 +259,14 @@ func (d *Decoder) More() bool {
 }
 
 func (d *Decoder) Token() (Token, error) {
-	return d.s.Token()
+	if err := d.s.ReadErr(); err != nil {
+		return nil, err
+	}
+	token, err := d.s.Token()
+	if rerr := d.s.ReadErr(); rerr != nil {
+		return nil, rerr
+	}
+	return token, err
 }
 
 // DisallowUnknownFields causes the Decoder to return an error when the destination
